@@ -636,6 +636,7 @@ func (s *PersistentSlabStorage) FastCommit(numWorkers int) error {
 	// again so we can apply them in order of keys
 	encSlabByID := make(map[SlabID][]byte, len(keysWithOwners))
 	for range len(keysWithOwners) {
+		verifYield("fc.recv", SlabIDUndefined)
 		result := <-results
 		// if any error return
 		if result.err != nil {
@@ -850,6 +851,7 @@ func (s *PersistentSlabStorage) NondeterministicFastCommit(numWorkers int) error
 
 	// Process encoded slabs
 	for range modifiedSlabCount {
+		verifYield("nfc.recv", SlabIDUndefined)
 		result := <-results
 
 		if result.err != nil {
@@ -1211,6 +1213,7 @@ func (s *PersistentSlabStorage) BatchPreload(ids []SlabID, numWorkers int) error
 
 	// Process results
 	for range jobCount {
+		verifYield("bp.recv", SlabIDUndefined)
 		result := <-results
 
 		if result.err != nil {
